@@ -18,22 +18,17 @@ from sfv import gen
 
 TARGETS = ['SFModel.Props.C14']
 THEOREMS = [
-    'SF.C14.directional_refines', 'SF.C14.directional_backward_refines_partial',
-    'SF.C14.directional_backward_counterexample', 'SF.C14.directional_axis0_refines',
+    'SF.C14.directional_refines', 'SF.C14.directional_backward_refines', 'SF.C14.directional_axis0_refines',
     'SF.C14.series_directional_refines', 'SF.C14.sided_refines', 'SF.C14.sided_axis0_refines',
     'SF.C14.series_sided_refines', 'SF.C14.never_touches_nonmissing', 'SF.C14.spec_never_touches_nonmissing',
-    'SF.C14.sided_never_touches_nonmissing', 'SF.C14.at_most_limit', 'SF.C14.at_most_limit_backward_partial',
-    'SF.C14.isna_exact', 'SF.C14.dropna_exact', 'SF.C14.dropna_rows_exact', 'SF.C14.dropna_columns_exact_partial',
-    'SF.C14.dropna_columns_oneD_counterexample', 'SF.C14.fillna_exact', 'SF.C14.count_exact',
+    'SF.C14.sided_never_touches_nonmissing', 'SF.C14.at_most_limit', 'SF.C14.at_most_limit_backward',
+    'SF.C14.isna_exact', 'SF.C14.dropna_exact', 'SF.C14.dropna_rows_exact', 'SF.C14.dropna_columns_exact',
+    'SF.C14.fillna_exact', 'SF.C14.count_exact',
+    # pinned-tree behaviour (historical definitions): the three repaired deviations as proved counterexamples
+    'SF.C14.pinned_directional_backward_counterexample', 'SF.C14.pinned_dropna_columns_oneD_counterexample',
+    'SF.C14.pinned_sided_axis0_zero_rows_counterexample',
 ]
-PARTIAL = [
-    'SF.C14.directional_backward_refines_partial: fillna_backward(axis=1) = spec proved for limit = 0 and, for every limit, '
-    'for the model with the repaired bridging count (fixed = true); for the code as it is and limit > 0 the statement is '
-    'false (directional_backward_counterexample, finding F64)',
-    'SF.C14.at_most_limit_backward_partial: same restriction',
-    'SF.C14.dropna_columns_exact_partial: axis=1 keep mask proved for every layout except ONE 1-D block '
-    '(dropna_columns_oneD_counterexample, finding F15)',
-]
+PARTIAL = []
 CORR_ONLY = ['dtype resolution of filled blocks (resolve_dtype / astype): compared with == on the real result',
              'label alignment of Series.fillna(Series) / Frame.fillna(Frame) (reindex, isin): the model takes the aligned '
              'container with its coverage mask; the harness builds shuffled partial containers and the oracle aligns by dict',
@@ -56,10 +51,6 @@ NEVER = ['int64', 'bool', 'str']
 FILL_ID = 9000
 GRID_ID = 5000
 MAXLIMIT = 4
-# which variant of the model the real code is compared with: 0 = the code as it is (bridging count of the backward
-# axis-1 fill read from the last yielded slice, finding F64); set to 1 together with the repair of F64 in /repo
-# (the repaired model is proved equal to the spec for every limit: directional_backward_refines_partial)
-MODEL_FIXED = 1
 
 
 # ------------------------------------------------------------------ values
@@ -366,9 +357,9 @@ def model_lines(c):
         elif k == 'sided':
             lines.append(f'na.f.sided {op[1]} {op[2]} {FILL_ID} {lay} {rows}')
         elif k == 'dirall':
-            lines.append(f'na.f.dirall {MAXLIMIT} {MODEL_FIXED} {lay} {rows}')
+            lines.append(f'na.f.dirall {MAXLIMIT} {lay} {rows}')
         elif k == 'dir':
-            lines.append(f'na.f.dir {op[1]} {op[2]} {op[3]} {MODEL_FIXED} {lay} {rows}')
+            lines.append(f'na.f.dir {op[1]} {op[2]} {op[3]} {lay} {rows}')
         else:
             raise ValueError(op)
     return lines
@@ -437,39 +428,6 @@ def value_lookup(b, c):
             return grid_value(kind, e - GRID_ID)
         return b.vals[e]
     return value_of
-
-
-def f29_rows(c, limit):
-    """rows where the known defect F64 can fire (necessary condition on pattern x layout x limit):
-    backward fill, a 2-D block that is not the leftmost one whose row part starts with a missing run closed by a
-    non-missing cell, has a later missing run of a different trimmed length closed by a non-missing cell,
-    and whose left neighbour cell is missing."""
-    out = set()
-    if limit <= 0:
-        return out
-    for i, row in enumerate(c['pat']):
-        j = 0
-        for w, is2d in c['layout']:
-            seg = row[j:j + w]
-            if j > 0 and w >= 2 and row[j - 1] and seg[0]:
-                runs = []  # (start, length) of missing runs closed on the right by a non-missing cell
-                k = 0
-                while k < w:
-                    if seg[k]:
-                        s = k
-                        while k < w and seg[k]:
-                            k += 1
-                        if k < w:
-                            runs.append((s, k - s))
-                    else:
-                        k += 1
-                if len(runs) >= 2 and runs[0][0] == 0 and runs[0][1] <= limit:
-                    first = min(runs[0][1], limit)
-                    last = min(runs[-1][1], limit)
-                    if first != last:
-                        out.add(i)
-            j += w
-    return out
 
 
 # ------------------------------------------------------------------ evaluate
@@ -770,20 +728,9 @@ def eval_series(ctx, c, outs):
 
 # ------------------------------------------------------------------ classification
 def classify(f):
-    c = f.case
-    d = f.detail if isinstance(f.detail, dict) else {}
-    op = d.get('op') or []
-    if f.kind != 'oracle' or c.get('k') != 'frame' or not op:
-        return None
-    if op[0] == 'dropna' and op[1] == 1 and d.get('exc') == 'IndexError' and c['layout'] == [[1, False]] \
-            and c['rows'] >= 2 and any(any(r) for r in c['pat']):
-        return 'F15-dropna-axis1-single-1d-block'
-    if op[0] == 'dir' and op[1] == 1 and op[2] == 0 and op[3] > 0 and d.get('model_agrees') is not False:
-        rows = set(d.get('rows') or [])
-        if rows and rows <= f29_rows(c, op[3]):
-            return 'F64-bfill-axis1-bridging-count'
-    if op[0] == 'sided' and op[1] == 0 and c['rows'] == 0 and d.get('exc') == 'IndexError':
-        return 'F65-sided-axis0-zero-rows'
+    """no known finding: the three deviations this check found on the pinned tree (dropna(axis=1) on one 1-D
+    block, the bridging count of fillna_backward(axis=1), sided fills of a zero-row frame along axis 0) are
+    repaired in /repo; those inputs are under the strict oracle"""
     return None
 
 
@@ -914,7 +861,6 @@ def extra(ctx):
     tasks = [(n, m, lo, min(lo + step, total)) for lo in range(0, total, step)]
     workers = int(os.environ.get('VERIF_WORKERS', '0') or 0) or max(1, min(8, (os.cpu_count() or 2) // 2))
     out = []
-    seen_known = {}
     with mp.get_context('fork').Pool(workers) as pool:
         for cnt, counters, fails, digests in pool.imap_unordered(_sweep_worker, tasks):
             ctx.evaluations += cnt
@@ -923,23 +869,39 @@ def extra(ctx):
                 ctx.count(k, v)
             ctx.distinct.update(digests)
             for kind, what, case, detail, finding in fails:
-                if finding is not None:
-                    if finding in seen_known:
-                        ctx.count('sweep_known_' + finding)
-                        continue
-                    seen_known[finding] = True
-                if case is None:
-                    continue
-                out.append(Failure(kind, what, case, finding=finding, detail=detail))
+                if case is not None:
+                    out.append(Failure(kind, what, case, finding=finding, detail=detail))
     return out
 
 
 def cases(ctx):
     rng = ctx.rng('main')
     quick = ctx.tier == 'quick'
-    # zero-row frame: sided fill along axis 0 (known finding F65) and the other operations
-    yield {'k': 'frame', 'rows': 0, 'dts': ['float64', 'float64'], 'layout': [[2, True]], 'pat': [], 'fill': 'float',
-           'ops': [['isna'], ['count', 0], ['fillna'], ['sided', 1, 1], ['sided', 0, 1], ['sided', 0, 0], ['dir', 0, 1, 0], ['dir', 1, 0, 1]]}
+    # zero-row frames (columns but no rows), every layout of up to three columns: all fills return the empty frame
+    # (sided fills along axis 0 raised IndexError on the pinned tree, repaired in /repo c25795d)
+    for dts in (['float64'], ['float64', 'float64'], ['object', 'float64'], ['float64', 'float64', 'int64'], ['datetime64[D]', 'str']):
+        for lay in gen.layouts_for(dts):
+            yield {'k': 'frame', 'rows': 0, 'dts': dts, 'layout': [list(x) for x in lay], 'pat': [], 'fill': 'float',
+                   'ops': [['isna'], ['count', 0], ['fillna'], ['sided', 1, 1], ['sided', 1, 0], ['sided', 0, 1], ['sided', 0, 0],
+                           ['dir', 0, 1, 0], ['dir', 0, 0, 1], ['dir', 1, 1, 1], ['dir', 1, 0, 1]]}
+    # one column stored as ONE 1-D block vs the same column as a 2-D block: dropna along both axes, every pattern
+    # (axis=1 raised IndexError / used the row mask on the pinned tree, repaired in /repo 53925e1)
+    for dt in NULLABLE:
+        for n in (1, 2, 3, 4):
+            for pat in itertools.product((0, 1), repeat=n):
+                for is2d in (False, True):
+                    yield {'k': 'frame', 'rows': n, 'dts': [dt], 'layout': [[1, is2d]], 'pat': [[p] for p in pat], 'fill': 'float',
+                           'ops': [['dropna', 0, 'all'], ['dropna', 0, 'any'], ['dropna', 1, 'all'], ['dropna', 1, 'any'], ['isna'], ['count', 0]]}
+    # backward / forward limits over EVERY layout of rows with several closed runs of different lengths (the bridging
+    # count of fillna_backward(axis=1) came from the wrong run on the pinned tree, repaired in /repo 5a58a46)
+    rows6 = [[1, 1, 0, 1, 1, 0], [1, 0, 1, 1, 0, 1], [1, 1, 1, 0, 1, 0], [0, 1, 1, 0, 1, 1], [1, 1, 0, 1, 0, 0]]
+    lays6 = gen.layouts_for(['float64'] * 6)
+    for row in (rows6[:2] if quick else rows6):
+        for lay in lays6:
+            yield frame_case(rng, 1, ['float64'] * 6, lay, [row], ops=[['sided', 1, 1], ['sided', 1, 0], ['dirall']], other=False)
+    if not quick:
+        for lay in lays6:
+            yield frame_case(rng, 2, ['float64'] * 6, lay, [rows6[0], rows6[3]], ops=SWEEP_OPS, other=False)
     # ---- Series
     if quick:
         for dt in NULLABLE:
@@ -968,8 +930,6 @@ def cases(ctx):
             lays = gen.layouts_for(dts)
             for _ in range(cnt):
                 yield frame_case(rng, 1, dts, rng.choice(lays), [[int(rng.random() < 0.55) for _ in range(m)]], ops=ROW_OPS, other=False)
-        # the shape of the known backward defect, every run
-        yield frame_case(rng, 1, ['float64'] * 6, [[1, False], [5, True]], [[1, 1, 0, 1, 1, 0]], ops=[['dir', 1, 0, 2], ['dir', 1, 0, 0], ['dir', 1, 1, 2]], other=False)
         # two-row frames: every pattern x every layout up to 2x3 (block-level shortcuts depend on the other row)
         for m in (1, 2, 3):
             dts = ['float64'] * m
